@@ -91,9 +91,22 @@ def accumulate_only(repo, res):
             continue
         for f in m.funcs.values():
             sl = None
+            # local aliases of assignment constructors: `assign = L.AssignAdd if cond else L.Assign`
+            aliases = {}
+            for n in walk_no_nested(f.node):
+                if isinstance(n, ast.Assign) and len(n.targets) == 1 and isinstance(n.targets[0], ast.Name):
+                    refs = {(dotted(x) or "").split(".")[-1] for x in ast.walk(n.value) if isinstance(x, (ast.Attribute, ast.Name))}
+                    refs &= set(ASSIGN_CLASSES)
+                    if refs and not isinstance(n.value, ast.Call):
+                        aliases.setdefault(n.targets[0].id, set()).update(refs)
             for c in calls_in(f.node):
                 nm = (call_name(c) or "").split(".")[-1]
-                if nm not in ASSIGN_CLASSES or not c.args:
+                possible = None
+                if nm in ASSIGN_CLASSES:
+                    possible = {nm}
+                elif isinstance(c.func, ast.Name) and c.func.id in aliases:
+                    possible = aliases[c.func.id]
+                if not possible or not c.args:
                     continue
                 if sl is None:
                     sl = Slicer(f.node)
@@ -101,6 +114,9 @@ def accumulate_only(repo, res):
                 n_sites += 1
                 tgt = c.args[0]
                 kind = _root_kind(sl, tgt, symtab)
+                if len(possible) > 1 or nm not in ASSIGN_CLASSES:
+                    worst = sorted(possible - {"AssignAdd"})
+                    nm = worst[0] if worst else "AssignAdd"
                 key = f"{f.key}:{nm}:{kind}:{len([k for k in res.instances if k.startswith(f.key)])}"
                 res.ob(key)
                 if kind == "A":
